@@ -13,45 +13,110 @@ def shards(quick_budget=25, thorough_budget=300, mode=None, n=16, env=None):
     return q, t
 
 
+def tool(name, args=None, timeout=3600, quick=False):
+    spec = {"tool": name, "args": args or [], "timeout": timeout}
+    return (spec if quick else None), spec
+
+
 def plan(*parts):
     return {"quick": [p[0] for p in parts if p[0]], "thorough": [p[1] for p in parts if p[1]]}
 
 
 PLANS = {
-    "C01": plan(shards(20, 240)),
-    "C02": plan(shards(20, 240)),
-    "C03": plan(shards(20, 240)),
-    "C04": plan(shards(25, 300, mode="light", n=12), shards(25, 300, mode="actor", n=4)),
-    "C05": plan(shards(20, 240)),
-    "C08": plan(shards(20, 240)),
-    "C09": plan(shards(20, 240)),
-    "C10": plan(shards(40, 400, mode="script", n=12), shards(25, 300, mode="faults", n=3), shards(15, 120, mode="shutdown-race", n=1)),
-    "C11": plan(shards(25, 300, mode="two", n=12), shards(25, 300, mode="three", n=4)),
-    "C12": plan(shards(20, 240)),
-    "C13": plan(shards(20, 240)),
-    "C06": plan(shards(25, 300, mode="images", n=14), shards(20, 200, mode="kill", n=2)),
-    "C07": plan(shards(20, 240)),
-    "C14": plan(shards(20, 240)),
-    "C15": plan(shards(20, 240)),
-    "C16": plan(shards(20, 240)),
-    "C17": plan(shards(20, 240)),
-    "C18": plan(shards(20, 240)),
+    "C01": plan(shards(20, 300)),
+    "C02": plan(shards(20, 300)),
+    "C03": plan(shards(20, 300)),
+    "C04": plan(shards(20, 300, mode="light", n=12), shards(20, 300, mode="actor", n=4)),
+    "C05": plan(shards(20, 300)),
+    "C06": plan(shards(20, 360, mode="images", n=14), shards(15, 240, mode="kill", n=2), tool("memcheck.sh", ["C06"], 3000)),
+    "C07": plan(shards(15, 240)),
+    "C08": plan(shards(20, 300)),
+    "C09": plan(shards(20, 300), tool("miri.sh", ["c09"], 3000), tool("memcheck.sh", ["C09"], 3000)),
+    "C10": plan(shards(30, 480, mode="script", n=12), shards(20, 300, mode="faults", n=3),
+                shards(12, 120, mode="shutdown-race", n=1)),
+    "C11": plan(shards(20, 360, mode="two", n=12), shards(20, 360, mode="three", n=4)),
+    "C12": plan(shards(20, 300), tool("miri.sh", ["c12"], 3000), tool("tsan.sh", ["C12"], 3000)),
+    "C13": plan(shards(15, 240)),
+    "C14": plan(shards(20, 300), tool("tsan.sh", ["C14"], 3000)),
+    "C15": plan(shards(12, 180)),
+    "C16": plan(shards(15, 240)),
+    "C17": plan(shards(12, 180)),
+    "C18": plan(shards(15, 240)),
 }
 
 LEVELS = {p: "exploration" for p in ["C%02d" % i for i in range(1, 19)]}
 LEVELS["C06"] = "fault_enumeration"
 LEVELS["C10"] = "fault_enumeration"
 
+_GEN = ("keys over {00,01,61,62,FE,FF} of length 0..4 with derived prefix / truncation / successor / ..FF forms, 2-4 "
+        "authors, timestamps T0+0..7 (equal and decreasing arrival), 30% deletion markers")
+
 RULES = {
-    "C02": "case = multiset of 3..14 signed entries (2-4 authors, keys over {00,01,61,62,FE,FF} len 0..4 with "
-           "derived prefix/successor keys, timestamps T0+0..7, 30% deletion markers) applied in >=6 permutations "
-           "with re-offers through remote insert / local insert / delete_prefix on memory and file stores; after "
-           "every step result and full dump are compared with the sequential specification, at the end with the "
-           "closed form. non-trivial = the merge differs from the plain union (something is superseded or pruned); "
-           "distinct = hash of the offered multiset.",
+    "C01": "case = pair of replica states built through the real insert path from random offers (" + _GEN + ", <=24 per side, partly shared), "
+           "reconciled with each side initiating on memory/file stores under a random (split factor, max set size) per side. "
+           "non-trivial = both states non-empty and different; distinct = hash of both start dumps.",
+    "C02": "case = multiset of 3..14 signed entries (" + _GEN + ") applied in >=6 permutations with re-offers through remote "
+           "insert / local insert / delete_prefix on memory and file stores; after every step result and full dump are compared "
+           "with the sequential specification, at the end with the closed form. non-trivial = the merge differs from the "
+           "plain union (something is superseded or pruned); distinct = hash of the offered multiset.",
+    "C03": "case = one store actor with a subscriber; 2..6 batches, each a crafted reconciliation message (1..8 values over 1..3 "
+           "item parts mixed with fingerprint parts) or a single remote insert, values drawn from 22 tamper kinds and valid entries. "
+           "non-trivial = at least two different kinds presented; distinct = hash of case and kinds.",
+    "C04": "case = history of 8..60 events over 2..5 replicas (local writes with skewed clocks and unique contents, broadcast "
+           "deliver/drop/duplicate in any order, sessions cut after k messages, restarts of file-backed replicas), then closing "
+           "rounds over a line / star / ring / random tree. non-trivial = at least one fault and two accepted writes; distinct = hash of the history.",
+    "C05": "case = replica state (2..20 offers incl. prefix deletions, second document in the same store) with 250 (quick) / 600 "
+           "random queries from the product kind x author(any,each,absent) x key filter(held keys, prefixes, ..FF, successor) x sort x "
+           "direction x include-empty x offset{0,1,2,n,n+1} x limit{none,0,1,2,n}. non-trivial = state with >=2 entries; distinct = hash of the state.",
+    "C06": "case = history of 6..25 store calls (inserts and deletes with dense prefix relations, remote inserts, imports, policy, peers, "
+           "flush, scans, document removal); images: after every call, at every internal store access with the age-based commit "
+           "forced at every access / at one access, and SIGKILLed child processes running 400-call histories. non-trivial = history "
+           "containing a call that both prunes and writes (images), a kill that hit a running history (kill); distinct = hash of the history / kill point.",
+    "C07": "case = 4..30 random steps over three documents (import read/write, open, close, reopen, local insert/delete, valid remote "
+           "insert, export, foreign merge), through the store (2/3) or the actor (1/3). non-trivial = a read capability was upgraded; distinct = hash of the trace.",
+    "C08": "case = two replica-state entry sets (closed form of random offers, " + _GEN + ") + a neighbouring document; primitives on "
+           "60/200 random ranges with bounds from held ids, successors, other authors, other documents; sessions on memory / file redb "
+           "and the ordered map with both initiators under random parameters. non-trivial = both sets non-empty; distinct = hash of both sets.",
+    "C09": "case kinds: frame streams of real sessions (every two-chunk split / 64 random split sets / byte-by-byte, every truncation, "
+           "length prefixes 2^30, 2^30+1, u32::MAX, single-byte corruption), signed entries (every truncation, corruption, identifier "
+           "lengths 0..69, random strings), protocol messages, head reports and tickets, capabilities / filters / policies / queries. "
+           "non-trivial = a real, well-formed value that was round-tripped; distinct = hash of its encoding.",
+    "C10": "script mode: every sequence of length <=3 (quick) / <=4 over 13 adversarial frames, against the initiator and against the "
+           "acceptor with 4 accept decisions (exhaustive per run when all shards finish; evidence counts the sequences done). faults "
+           "mode: generated pairs x every frame index x {close replica, sync off, actor shutdown, cut, cut inside frame} x side. "
+           "shutdown-race mode: 2..6 clients issuing requests while the actor is shut down. non-trivial = every sequence / pair with >=3 frames; distinct = hash.",
+    "C11": "case = random schedule (<=6 dials, <=14 quick / 24 thorough events) over two or three real live actors on a fresh document: "
+           "dial decisions (new neighbour / sync report / direct join), request delivery or loss, decline reply delivered or lost, both "
+           "session ends finishing Ok or with each error class in any order, ending with a probe dial at quiescence. "
+           "non-trivial = >=4 events; distinct = hash of the history; distinct_sets.states = distinct (slot states, in-flight objects) seen.",
+    "C12": "case = 5..25 steps on one store actor: subscribe / unsubscribe / drop receiver (<=4 subscribers), policy change, local insert / "
+           "delete, single remote entry (direct or as message; valid, superseded, forged), multi-entry messages with forged entries, "
+           "sessions with a local write between two messages. non-trivial = subscriber churn happened and events were produced; distinct = hash of the trace.",
+    "C13": "case kinds: (2/3) history of 3..14 offers per document on two neighbouring documents in random arrival order with removal "
+           "and re-creation, heads and 3 probe reports checked after every step; (1/3) head set of 0..40 authors over 1..6 timestamps "
+           "of different varint widths, no limit and 12 limits. non-trivial = decreasing arrival happened / timestamps shared; distinct = hash.",
+    "C14": "case kinds: (2/3) sequential history of 5..40 requests over two documents compared reply by reply and by get_state; (1/3) "
+           "2..4 concurrent clients x 2..5 requests on a 4-thread runtime, checked for linearizability per document. non-trivial = "
+           "sequential: some request had to be refused; concurrent: operations of different clients overlapped; distinct = hash of the history.",
+    "C15": "case kinds: matcher (policy x all keys up to length 3 over the alphabet + filter-derived keys), persistence (set/get/reopen over "
+           "two documents and a missing one), filter text round-trips and arbitrary strings, event flags from a real actor. "
+           "non-trivial = policy that selects some keys and not others / >=2 steps / filter round-tripped; distinct = hash.",
+    "C16": "case = store with 3..5 documents from a pool of byte-neighbour ids, filled with entries, policies and peers; 2..8 steps of "
+           "removal (1/3 attempted while open), re-creation, writes. non-trivial = at least one removal succeeded; distinct = hash of the trace.",
+    "C17": "case = 1..40 registrations over 1..8 peers and two documents with reopen and unknown documents. non-trivial = an eviction "
+           "and a refresh both happened; distinct = hash of the trace.",
+    "C18": "case = file store with 1..3 documents (1..14 offers each), flushed; head table / by-key index / both / none deleted with plain "
+           "redb; 1..3 reopen cycles with heads, 60 key-ordered queries per document and all observables checked. "
+           "non-trivial = a table was deleted; distinct = hash of deleted tables and content.",
 }
 
-ASSUMPTIONS = {
-    "C02": ["ed25519 signing is deterministic (asserted: locally authored entries are compared byte-for-byte with pre-signed ones)",
-            "the full scan Query::all().include_empty() returns what the records table holds (cross-checked by C05)"],
-}
+ASSUMPTIONS = {p: ["the executable replica specification in harness/src/model.rs (self-checked: sequential form == closed form on every case)",
+                   "hooks are behaviour-neutral when not armed (feature `verif`)"] for p in PLANS}
+ASSUMPTIONS["C02"].append("ed25519 signing is deterministic (locally authored entries are compared byte-for-byte with pre-signed ones)")
+ASSUMPTIONS["C06"] = ["a copy of the database file taken while no write is in progress is what a killed process leaves behind (page cache is kept by the kernel)",
+                      "redb's commit is atomic and its fsync discipline is sound (power loss is out of scope)",
+                      "the shadow instance (in-memory store running the same calls under the same clock) passes through the same logical states"]
+ASSUMPTIONS["C09"] = ["the hand-written postcard encoder in harness/src/wire.rs and the three hex snapshots of the test-suite define the pinned encodings"]
+ASSUMPTIONS["C10"] = ["an in-memory duplex pipe models the QUIC stream; a cut is an orderly end-of-stream (a transport reset would be an error on both sides)"]
+ASSUMPTIONS["C11"] = ["the network model imposes only causality (a session end needs its Allow, a reply needs its Reject); completion handlers are invoked directly rather than through the live actor's select loop"]
+ASSUMPTIONS["C17"] = ["two consecutive registrations obtain distinct wall-clock nanosecond readings"]
